@@ -99,6 +99,20 @@ def meta_ps(S, r, tier):
     return S
 
 
+def force_split(S, r, tier):
+    """C16: every run has at least one split point; some lie before the first event or exactly on an event-free instant"""
+    T = S["plan"][-1][1]
+    if len(S["plan"]) < 2:
+        cuts = sorted(set(round(r.uniform(0, T), 4) for _ in range(r.randint(1, 4))))
+        cuts = [c for c in cuts if 0 < c < T]
+        if r.random() < 0.15:
+            cuts = [min(cuts + [T / 2]) / 1000.0] + cuts
+        if r.random() < 0.1 and cuts:
+            cuts = sorted(cuts + [cuts[0]])      # the same horizon asked twice
+        S["plan"] = [["time", c] for c in cuts] + [["time", T]]
+    return S
+
+
 PROFILES = {}
 LEVEL_TEXT = {
     "*": "seeded exploration: the real engine is run on tens of thousands of generated networks, tapes and tie-break "
@@ -128,6 +142,7 @@ def _load():
     from .oracles.c17 import C17
     from .oracles.c18 import C18
     from .oracles.c19 import C19, run_c19
+    from .oracles.c16 import C16, run_c16
 
     wide = profile()
     faulty = profile(f_zero=0.8, f_infarr=0.3, f_batch0=0.8, qcap=0.7, sched=0.35, renege=0.4, batch=0.4)
@@ -208,6 +223,12 @@ def _load():
                      "distinct history digest; non-trivial = >=1 event with >=2 sharers and >=1 completed PS service during which the occupancy changed; "
                      "metamorphic sub-profile: unlimited PS node with threshold 1 vs FIFO single-server twin on the same tapes (continuous, tie-free)",
                      B(30000, 300000), post=meta_ps, runner=run_c19))
+    pr = profile(time={"cont": 1.0}, splits=4, plan={"time": 1.0}, exact=0.0, f_zero=0.0, f_batch0=0.3, tdep=0.0, n=[1, 2, 2, 3], k=[1, 2],
+                 horizon=[8.0, 20.0], f_infarr=0.05, policies=["uniform"])
+    register(Profile("C16", [C16], [(1, pr)],
+                     "pairs (one call vs split into 2-5 calls) of the same spec; distinct history digest of the split run; non-trivial = >=1 pause "
+                     "while >=1 server was busy; runs in which two events coincide are discarded as out of domain and counted",
+                     B(15000, 150000), post=force_split, runner=run_c16))
     cap = profile(qcap=0.9, qcap_vals=[INF, 0, 0, 1, 2, 3], syscap=0.4, batch=0.5, baulk=0.4, renege=0.3, jockey=0.5, n=[1, 2, 2, 3], **NOREROUTE)
     register(Profile("C06", [C06], [(1, cap)],
                      "distinct history digest; non-trivial = >=1 rejection and >=1 admission into a node holding capacity-1",
